@@ -8,7 +8,6 @@ from fractions import Fraction as F
 from harness.common import frac, close
 
 PID = "C09"
-DISABLED = True
 THEOREMS = [
     "PorepyVerif.C09.accepted_strictly_increasing",
     "PorepyVerif.C09.never_exceeds_final",
@@ -20,13 +19,18 @@ THEOREMS = [
     "PorepyVerif.C09.recomputation_is_bounded",
     "PorepyVerif.C09.only_documented_errors",
     "PorepyVerif.C09.time_index_counts_accepted",
+    "PorepyVerif.C09.all_converged_finishes",
+    "PorepyVerif.C09.all_converged_hits_every_scheduled",
+    "PorepyVerif.C09.constant_dt_times",
+    "PorepyVerif.C09.constant_dt_failure_raises",
+    "PorepyVerif.C09.constant_dt_hits_partial",
 ]
 LEAN_MODULES = ["PorepyVerif.C09.Props"]
 AUDIT = "PorepyVerif/C09/Audit.lean"
 DRIVER = "PorepyVerif/C09/Driver.lean"
-N = {"quick": 500, "thorough": 12000}
+N = {"quick": 800, "thorough": 30000}
 RULE = ("streams: A (55%) time loop on dyadic parameters (schedule of 2-6 points with arbitrary dyadic start, gaps 1/16..4, dt bounds/"
-        "factors with small power-of-two denominators, tolerances default/zero/dyadic/large, outcome tapes of 5-40 entries with failure "
+        "factors with small power-of-two denominators, tolerances default/zero/dyadic/large/negative/rtol>1, outcome tapes of 5-40 entries with failure "
         "rates 0-0.8 and iteration counts around the optimal-range end points; dt_init fits the first interval in 90%, divides the gaps "
         "often so that scheduled times are hit without correction); B (20%) the same with decimal parameters (class T, knife edges dropped "
         "and counted); C (10%) constant dt (compatible and incompatible schedules, failures); D (8%) constructor arguments violating one "
@@ -40,13 +44,17 @@ TRUSTED = [
     "run_time_dependent_model are executed for real on a stub model (no equation system)",
 ]
 EXPLANATION = ("FULL (exact arithmetic): model = TimeManager state machine + time loop; theorems quantify over every Valid parameter set whose "
-               "initial step fits the first scheduled interval, non-negative tolerances, positive minimal step (or positive factors) and EVERY outcome tape. "
+               "initial step fits the first scheduled interval, non-negative tolerances, positive minimal step (or positive factors) and EVERY outcome tape: "
+               "strict increase, never past the final time, every scheduled time hit when the loop ends (and all earlier ones at any time: invariant "
+               "idx_points_to_next), step bounds, rewind-or-raise, recomputation bounded, no IndexError, liveness for converging tapes when dt_min > 0. "
+               "Constant-dt mode (outside the statement): arithmetic times, failure raises, hits_partial under an explicit compatibility hypothesis. "
                "Correspondence replays every call the real loop makes on the real TimeManager (final_time_reached, increase_time, increase_time_index, "
                "compute_time_step) on the model and compares time, dt, time_index, _recomp_num, _scheduled_idx, _is_about_to_hit_schedule, returned "
                "value / raised error kind after every call, exactly on dyadic inputs; plus the model's own loop against the real loop's summary.")
 ASSUMPTIONS = [
     "theorems are over exact rational arithmetic; binary64 rounding is bridged by the correspondence check only",
-    "tolerances rtol, atol are non-negative; dt_min > 0 or all of the relaxation/recomputation factors are positive (the constructor does not check either)",
+    "tolerances satisfy rtol <= 1 or atol >= 0 (any non-negative pair does); dt_min > 0 or the under-relaxation and recomputation factors are positive "
+    "(the constructor checks neither)",
     "scheduled times count as hit when an accepted time is np.isclose to them with the manager's own rtol/atol (that is also what ends the loop)",
 ]
 
@@ -68,8 +76,8 @@ def _is_b64(q: F) -> bool:
 
 def _kwargs(p):
     sched = [_fl(x) for x in p["schedule"]]
-    if p.get("int_schedule"):
-        sched = [int(x) for x in sched]
+    if p.get("int_schedule") and all(x.is_integer() for x in sched):
+        sched = [int(x) for x in sched]  # np.array(schedule) becomes an integer array
     return dict(
         schedule=sched,
         dt_init=_fl(p["dt_init"]),
@@ -382,13 +390,13 @@ def compare(impl, model, case):
 
 # ----------------------------------------------------------------------------- oracle
 def _isclose(a, b, rtol, atol):
-    return abs(a - b) <= atol + rtol * abs(b)
+    return abs(a - b) <= atol + rtol * abs(b) or a == b  # np.isclose or-s with x == y
 
 
 def _valid_params(p):
     """The property's premise, decided on the case itself (not on the code): constructor-valid adaptive
     parameters, initial step fits the first interval, non-negative tolerances, positive minimal step or
-    positive factors."""
+    positive factors (tolerances: rtol <= 1 or atol >= 0)."""
     s = [F(x) for x in p["schedule"]]
     if p["constant_dt"] or p["dt_min_max"] is None:
         return False
@@ -401,7 +409,7 @@ def _valid_params(p):
         return False
     if s[0] + dt0 > s[1]:
         return False
-    if F(p["rtol"]) < 0 or F(p["atol"]) < 0:
+    if F(p["rtol"]) > 1 and F(p["atol"]) < 0:
         return False
     return mn > 0 or (un > 0 and rf > 0)
 
@@ -420,7 +428,7 @@ def oracle(case):
     rtol, atol = _fl(p["rtol"]), _fl(p["atol"])
     mn, mx = _fl(p["dt_min_max"][0]), _fl(p["dt_min_max"][1])
     exact = bool(case.get("exact"))
-    eps = 0.0 if exact else 1e-9  # relative slack for rounding in the decimal stream
+    eps = 1e-12 if exact else 1e-9  # relative slack for binary64 rounding (violations on the dyadic stream are macroscopic)
     sl = lambda x: eps * max(1.0, abs(x))
     short = f"schedule={sched} dt_init={_fl(p['dt_init'])} dt_min_max=({mn},{mx}) outcomes={case['outcomes'][:12]}"
     if status.startswith("crashed") or (status.startswith("raised") and status != "raised:ValueError"):
@@ -448,7 +456,7 @@ def oracle(case):
         if dt > mx + sl(mx):
             return {"what": f"step {dt} from t={t0} larger than dt_max={mx} ({short})", "key": "dt-above-max"}
         if dt < mn - sl(mn):
-            lands = any((t0 + dt == x) if exact else (abs(t0 + dt - x) <= sl(x) or _isclose(t0 + dt, x, rtol, atol)) for x in sched)
+            lands = any(abs(t0 + dt - x) <= sl(x) or (not exact and _isclose(t0 + dt, x, rtol, atol)) for x in sched)
             if not lands:
                 return {"what": f"step {dt} from t={t0} smaller than dt_min={mn} without landing on a scheduled time ({short})", "key": "dt-below-min"}
         if not dt > 0:
@@ -490,9 +498,13 @@ def _tol(rng, dyadic):
         return "0", "0"
     if r < 0.85:
         return frac(F(1, 2 ** 20)), frac(F(1, 2 ** 30))
-    if r < 0.95:
+    if r < 0.93:
         return frac(F(1, 16)), frac(F(1, 64))
-    return (frac(F(1, 2)), frac(F(1, 4))) if dyadic else (frac(1e-6), frac(1e-8))
+    if not dyadic:
+        return frac(1e-6), frac(1e-8)
+    # unusual tolerances (dyadic stream only): large, negative (then only x == y counts as close), rtol > 1
+    return rng.choice([(frac(F(1, 2)), frac(F(1, 4))), (frac(F(-1, 1024)), "0"), (frac(F(-1, 8)), frac(F(-1, 4))),
+                       (frac(F(3, 2)), frac(F(1, 8))), (frac(F(2)), frac(F(-1, 8)))])
 
 
 def _outcomes(rng, lo, up, imax, n):
@@ -544,7 +556,7 @@ def _gen_adaptive(rng, tier, dyadic):
     r = rng.random()
     g0 = s[1] - s[0]
     if r < 0.35:
-        dt0 = g0 / rng.choice([1, 2, 3, 4, 5, 8])  # divides the first gap: exact landing without correction
+        dt0 = g0 / rng.choice([1, 2, 2, 4, 4, 8, 3, 5])  # divides the first gap: exact landing without correction
     elif r < 0.5:
         dt0 = mn
     elif r < 0.6:
@@ -686,17 +698,44 @@ def _gen_raw(rng, tier):
     return {"kind": "raw", "stream": "E", "exact": c["exact"], "p": p, "calls": calls}
 
 
+def _normalize(case):
+    """Every real parameter becomes the binary64 value the real code is given; `exact` survives only if
+    nothing had to be rounded (then exact rational arithmetic and binary64 start from the same numbers)."""
+    p = case["p"]
+    changed = False
+
+    def fix(x):
+        nonlocal changed
+        q = F(x)
+        q2 = F(float(q))
+        if q2 != q:
+            changed = True
+        return frac(q2)
+
+    p["schedule"] = [fix(x) for x in p["schedule"]]
+    for k in ("dt_init", "under", "over", "recomp_factor", "rtol", "atol"):
+        p[k] = fix(p[k])
+    if p["dt_min_max"] is not None:
+        p["dt_min_max"] = [fix(x) for x in p["dt_min_max"]]
+    if changed:
+        case["exact"] = False
+        p.pop("int_schedule", None)
+    return case
+
+
 def gen_case(rng, tier):
     r = rng.random()
     if r < 0.55:
-        return _gen_adaptive(rng, tier, dyadic=True)
-    if r < 0.75:
-        return _gen_adaptive(rng, tier, dyadic=False)
-    if r < 0.85:
-        return _gen_constant(rng, tier)
-    if r < 0.93:
-        return _gen_malformed(rng, tier)
-    return _gen_raw(rng, tier)
+        c = _gen_adaptive(rng, tier, dyadic=True)
+    elif r < 0.75:
+        c = _gen_adaptive(rng, tier, dyadic=False)
+    elif r < 0.85:
+        c = _gen_constant(rng, tier)
+    elif r < 0.93:
+        c = _gen_malformed(rng, tier)
+    else:
+        c = _gen_raw(rng, tier)
+    return _normalize(c)
 
 
 def nontrivial(case):
